@@ -1600,7 +1600,10 @@ def _o_caller_map(ex, env):
         if ex2.choose(O_CALLER_HAS(g), 'caller-map-has'):
             return Obj('Asn1Type', {'__id__': O_CALLER_TYPE(g)}, name='callerType')
         raise _Raise(ExcV('KeyError'))
-    return Obj('dict', {'__truthy__': True}, {'__getitem__': getitem}, name='openTypes')
+
+    def setitem(ex2, self, k, v):
+        self.fields['written'] = True       # (ghost) the caller's object was stored into
+    return Obj('dict', {'__truthy__': True, 'written': False}, {'__getitem__': getitem, '__setitem__': setitem}, name='openTypes')
 
 
 def _o_decode(ex, stream, asn1Spec=None, **options):
@@ -1634,7 +1637,7 @@ def _o_inv(ex, rec, upto):
 OPEN_TYPES_N = Contract(
     id='ber.decoder::ConstructedPayloadDecoderBase.valueDecoder@open-types[any-size]', file=F,
     qual='ConstructedPayloadDecoderBase.valueDecoder', region="openTypes or options.get('decodeOpenTypes', False)",
-    is_generator=True, properties=['C18'],
+    is_generator=True, properties=['C18', 'C12'],
     params=dict(self=PObj('ConstructedPayloadDecoderBase'),
                 namedTypes=PConst(Obj('NamedTypes', {'namedTypes': _OpenMembers([], names=None), 'hasOpenTypes': True}, name='namedTypes')),
                 asn1Object=PDerived(_o_record), openTypes=PDerived(_o_caller_map), options=POptions(decodeOpenTypes=PBool())),
@@ -1644,13 +1647,16 @@ OPEN_TYPES_N = Contract(
     requires=['N >= 0', 'not eooAllowedInside'],
     calls={'decodeFun': _o_decode},
     loops={0: Loop(index='k', invariant=['resolved_upto(asn1Object, k)', 'not value_yielded()',
-                                         'asn1Object.governorReadWithInstantiation'],
-                   havoc_fields=['asn1Object.slots', 'asn1Object.governorReadWithInstantiation'])},
+                                         'asn1Object.governorReadWithInstantiation', 'not openTypes.written'],
+                   havoc_fields=['asn1Object.slots', 'asn1Object.governorReadWithInstantiation', 'openTypes.written'])},
     exit_ensures=[
         # C18 for a record of any size: a member whose governing value resolves (caller's map first, declared map second)
         # holds the inner value decoded as the mapped type; every other member -- no open type, absent OPTIONAL, valueless or
         # unmapped governing value -- is exactly what it was
-        ('resolvable-members-decoded-all-others-untouched', 'resolved_upto(asn1Object, N)')],
+        ('resolvable-members-decoded-all-others-untouched', 'resolved_upto(asn1Object, N)'),
+        # C12: the map the caller passed in is read, never written (a decode that remembers a resolution in it changes what
+        # the next call with the same map returns)
+        ('callers-map-only-read', 'not openTypes.written')],
     may_raise={'PyAsn1Error': True},
     note='open-type members that are not SET OF / SEQUENCE OF (those: bounded contract); governing members are not themselves '
          'open-type members')
